@@ -480,12 +480,36 @@ func (m *evalModel) computeStepBlocks() {
 		all = append(all, f)
 		all = append(all, allAnon(f)...)
 	}
+	// ... or inside the unexported functions of the package they call (stepping code moved into named functions)
+	seenFn := map[*ssa.Function]bool{}
+	for _, f := range all {
+		seenFn[f] = true
+	}
+	for i := 0; i < len(all); i++ {
+		for _, b := range all[i].Blocks {
+			for _, in := range b.Instrs {
+				ci, ok := in.(ssa.CallInstruction)
+				if !ok {
+					continue
+				}
+				c := ci.Common().StaticCallee()
+				if c == nil || c.Pkg != m.EVAL.Pkg || c.Parent() != nil || seenFn[c] || len(c.Blocks) == 0 || c.Object() == nil || c.Object().Exported() {
+					continue
+				}
+				seenFn[c] = true
+				all = append(all, c)
+				all = append(all, allAnon(c)...)
+			}
+		}
+	}
 	for _, f := range all {
 		for _, b := range f.Blocks {
 			for _, in := range b.Instrs {
 				if st, ok := in.(*ssa.Store); ok {
 					if g, ok := st.Addr.(*ssa.Global); ok && g.Pkg == m.EVAL.Pkg {
-						m.flags[g] = true
+						if bt, isB := g.Type().(*types.Pointer).Elem().Underlying().(*types.Basic); isB && bt.Kind() == types.Bool {
+							m.flags[g] = true
+						}
 					}
 				}
 			}
